@@ -17,7 +17,8 @@ SPEC = {
                   "RejectHeadroom, RehandshakeAfterMessages and ReplayWindow are regenerated from the code on every run and pinned to their "
                   "documented values. The model is tied to connection_state.go / inside.go / noiseutil by scripted interleavings of the real "
                   "sendInsideEncrypt, sendNoMetrics and prepareSendVia on one ConnectionState (granularity: reserve | encrypt), in normal "
-                  "and FIPS mode, and the property's executable specification is evaluated on every nonce the real code handed to the cipher.",
+                  "and FIPS mode, and the property's executable specification is evaluated on every nonce the real code handed to the cipher. "
+                  "System level (component sysmon_C13): in seeded event histories of four real nodes built by nebula.Main the message counters of all encrypted datagrams a node puts on the wire are pairwise distinct per sending tunnel (relay packets are counted on the tunnel whose key signs them).",
     "level_note": "Trusted: Coq kernel; the harness, the overlay shim and the recording cipher wrapper. The interleaving between the Add and "
                   "the Store inside NextMessageCounter cannot be scripted on the real code (no hook) and is covered by the proof and by the "
                   "concurrent stress runs only. The correspondence is differential testing (boundary sweep + random), so the link model<->Go "
@@ -28,7 +29,7 @@ SPEC = {
     "props": ["props/C13.v"],
     "corr": ["corr/Nonce_corr.v"],
     "comps": [{"comp": "nonce", "n_quick": 500, "n_thorough": 20000},
-              {"comp": "nonce_fips", "n_quick": 150, "n_thorough": 6000}],
+              {"comp": "nonce_fips", "n_quick": 150, "n_thorough": 6000}, {"comp": "sysmon_C13", "e2e": True, "n_quick": 12, "n_thorough": 150}],
     "trusted": ["model/Nonce.v is a hand-written mirror of NextMessageCounter and of the three shapes of send path in inside.go "
                 "(every caller of eKey.EncryptDanger), tied by the correspondence",
                 "gen/Consts_Nonce.v is printed by the harness from the constants compiled in from /repo",
